@@ -173,7 +173,11 @@ def impl_table(cv, valids, vc, vs, vh, vd='bool', prev=None):
     return {'S': S, 'C': C, 'table': t, 'mutated': mutated}
 
 
-def maps_op(cv, valids, vc, vs, vh):
+def maps_op(cv, valids, vc, vs, vh, vd='bool'):
+    """vd='int': the selection reaches the model as the integer flags themselves (Maps.subsetVectorFlags: 0 = unselected, as
+    the implementation's `valids[ii] == 0`; theorem C16.integer_flags_select_like_booleans), not as booleans"""
+    if vd == 'int':
+        return proto.op('MAPS', {'flags': 'int'}, [cv, [int(v) for v in valids], vc, vs, vh])
     return proto.op('MAPS', {}, [cv, [int(bool(v)) for v in valids], vc, vs, vh])
 
 
